@@ -5,12 +5,18 @@ package term
 import (
 	"fmt"
 	"math/bits"
+	"os"
+	"sync"
+	"syscall"
 	"testing"
 	"time"
 	"unicode"
 	"unicode/utf8"
 
+	"golang.org/x/sys/unix"
+	"src.elv.sh/pkg/sys/eunix"
 	"src.elv.sh/pkg/zzverif/vk"
+	"src.elv.sh/pkg/zzverif/vsched"
 )
 
 // C31: terminal input decoding is total, never blocks past its timeout
@@ -299,12 +305,14 @@ func TestVerifC31(t *testing.T) {
 		c.Rule(fmt.Sprintf("(1) every byte stream of <=%d symbols over the %d-symbol alphabet %q, each with every set of pauses (longer than the reader's timeout) before bytes 1..len-1 (streams longer than %d bytes: every set of at most 2 pauses), length-lexicographic; "+
 			"(2) every Unicode scalar value U+0020..U+10FFFF as a one-character stream, with no pause and with a pause before each continuation byte; "+
 			"(3) every string of <=%d characters over the %d-character set %U with every set of pauses at character boundaries. "+
+			"(4) every text of <=3 characters over %U through the REAL bReader on a pipe, for every split of its bytes into separately arriving writes, fault-free and with select(2) interrupted (EINTR) at every choice of <=%d of the reader's wait calls; "+
 			"class = sequence of outcome kinds of the successive ReadEvent calls (key event with modifier bits and rune category / mouse / cursor report / paste / error message / timeout) and, in parts 2-3, (encoding length, judged or not)",
-			nb, len(c31Alphabet), c31Alphabet, c31AllPausesLen, nr, len(c31Runes), c31Runes))
+			nb, len(c31Alphabet), c31Alphabet, c31AllPausesLen, nr, len(c31Runes), c31Runes, c31RealRunes, vk.Pick(c, 1, 2)))
 		c.Assume("the terminal is modelled by a fake byteReaderWithTimeout/fileReader: a read without timeout returns the next byte whenever one will arrive, a read with timeout times out iff the next byte is preceded by a pause or the stream is over; eunix.WaitForRead and the real file descriptor are not exercised",
 			"'cannot block past its timeout' is checked as: within one ReadEvent call only the first read may be issued without timeout, and once a read has timed out the call issues no further read",
 			"plain text = valid UTF-8 without control characters (C0, DEL, C1); exact decoding is judged for graphic and format characters only, and not when a pause falls inside one character's bytes (documentation is silent there)",
-			"what a given escape sequence decodes to is not judged (not part of the property)")
+			"what a given escape sequence decodes to is not judged (not part of the property)",
+			"part 4 runs the real bReader over an os.Pipe; its eunix.WaitForRead call goes through a hook (build-time call replacement) that delivers the next write when the pipe is empty, forwards to the real select(2) only when data is present (so nothing depends on the clock), and answers EINTR at chosen calls; real signal delivery is not exercised")
 
 		addCounts := func(nj, jp int64) {
 			if nj != 0 {
@@ -426,6 +434,244 @@ func TestVerifC31(t *testing.T) {
 				c.Sample(string(data))
 			}
 		})
-		c.Set("bounds", map[string]any{"stream_len": nb, "alphabet": len(c31Alphabet), "text_len": nr, "rune_set": len(c31Runes)})
+		c31RealReaderPart(c)
+		c.Set("bounds", map[string]any{"stream_len": nb, "alphabet": len(c31Alphabet), "text_len": nr, "rune_set": len(c31Runes),
+			"real_reader_text_len": 3, "real_reader_rune_set": len(c31RealRunes), "eintr_faults": vk.Pick(c, 1, 2)})
 	})
+}
+
+// ---- Part 4: the real bReader over a pipe, with interrupted waits ----
+
+// Characters of every UTF-8 encoding length (and '[', structural in escape
+// sequences but plain on its own).
+var c31RealRunes = []rune{'a', '[', 'é', '好', '𐌰'}
+
+// c31Env is the environment of one run of the real reader: the writes that have
+// not arrived yet and the wait calls to interrupt.
+type c31Env struct {
+	w       *os.File
+	chunks  [][]byte
+	next    int
+	calls   int
+	eintrAt [2]int // 1-based numbers of the wait calls answered with EINTR (0: none)
+	starved bool   // a wait was issued when no byte was left to arrive
+}
+
+var c31Envs sync.Map // read end of the pipe (*os.File) -> *c31Env
+var c31HookCalls int64
+var c31HookMu sync.Mutex
+
+func c31Pending(f *os.File) int {
+	n, err := unix.IoctlGetInt(int(f.Fd()), unix.TIOCINQ) // FIONREAD
+	if err != nil {
+		panic(fmt.Sprintf("c31: FIONREAD: %v", err))
+	}
+	return n
+}
+
+// c31WaitHook stands where bReader calls eunix.WaitForRead.
+func c31WaitHook(timeout time.Duration, files ...*os.File) ([]bool, error) {
+	v, ok := c31Envs.Load(files[0])
+	if !ok {
+		return eunix.WaitForRead(timeout, files...)
+	}
+	e := v.(*c31Env)
+	e.calls++
+	if e.calls == e.eintrAt[0] || e.calls == e.eintrAt[1] {
+		// A signal interrupts select(2) before anything is reported ready.
+		return make([]bool, len(files)), syscall.EINTR
+	}
+	if c31Pending(files[0]) == 0 {
+		if e.next >= len(e.chunks) {
+			e.starved = true
+			return make([]bool, len(files)), nil // nothing will arrive: timed out
+		}
+		// The next write arrives while the reader waits.
+		if _, err := e.w.Write(e.chunks[e.next]); err != nil {
+			panic(fmt.Sprintf("c31: pipe write: %v", err))
+		}
+		e.next++
+	}
+	return eunix.WaitForRead(timeout, files...)
+}
+
+type c31RealOut struct {
+	ev  Event
+	err error
+}
+
+// c31RealRun decodes one text, arriving as the given chunks, with the real
+// reader and returns the outcomes of the successive ReadEvent calls.
+func c31RealRun(chunks [][]byte, total int, eintrAt [2]int) (outs []c31RealOut, calls int, problem string) {
+	r, w, err := os.Pipe()
+	if err != nil {
+		panic(err)
+	}
+	defer r.Close()
+	defer w.Close()
+	fr, err := newFileReader(r)
+	if err != nil {
+		panic(err)
+	}
+	defer fr.Close()
+	env := &c31Env{w: w, chunks: chunks, eintrAt: eintrAt}
+	c31Envs.Store(r, env)
+	defer c31Envs.Delete(r)
+	rd := &reader{fr: fr}
+	for n := 0; ; n++ {
+		if env.next >= len(chunks) && c31Pending(r) == 0 {
+			break // everything consumed
+		}
+		if n > 2*total+4 {
+			return outs, env.calls, fmt.Sprintf("more than %d ReadEvent calls for %d bytes", n, total)
+		}
+		var ev Event
+		var err error
+		if p := vk.Try(func() { ev, err = rd.ReadEvent() }); p != "" {
+			return outs, env.calls, "panic: " + p
+		}
+		outs = append(outs, c31RealOut{ev, err})
+	}
+	return outs, env.calls, ""
+}
+
+func c31RealDescribe(outs []c31RealOut) string {
+	s := "["
+	for i, o := range outs {
+		if i > 0 {
+			s += " "
+		}
+		if o.err != nil {
+			s += fmt.Sprintf("error(%v)", o.err)
+		} else if k, ok := o.ev.(KeyEvent); ok && k.Mod == 0 && k.Rune >= 0x20 {
+			s += fmt.Sprintf("key(%U)", k.Rune)
+		} else {
+			s += fmt.Sprintf("%#v", o.ev)
+		}
+	}
+	return s + "]"
+}
+
+func c31RealReaderPart(c *vk.Ctx) {
+	// The call replacement must be in place, otherwise nothing would ever be written to the pipes.
+	vsched.Hooks["waitforread"] = func(timeout time.Duration, files ...*os.File) ([]bool, error) {
+		c31HookMu.Lock()
+		c31HookCalls++
+		c31HookMu.Unlock()
+		return c31WaitHook(timeout, files...)
+	}
+	{
+		r, w, _ := os.Pipe()
+		w.Write([]byte{'x'})
+		fr, _ := newFileReader(r)
+		b, err := fr.ReadByteWithTimeout(0)
+		fr.Close()
+		r.Close()
+		w.Close()
+		if c31HookCalls == 0 || b != 'x' || err != nil {
+			panic(fmt.Sprintf("C31 part 4: bReader does not reach the waitforread hook (hook calls %d, byte %q, err %v): the rewrite section of checks/C31.json was not applied to file_reader_unix.go", c31HookCalls, b, err))
+		}
+	}
+	faults := vk.Pick(c, 1, 2)
+	// all texts of 1..3 characters
+	var texts [][]rune
+	for n := 1; n <= 3; n++ {
+		idx := make([]int, n)
+		for {
+			t := make([]rune, n)
+			for i, j := range idx {
+				t[i] = c31RealRunes[j]
+			}
+			texts = append(texts, t)
+			i := n - 1
+			for i >= 0 {
+				idx[i]++
+				if idx[i] < len(c31RealRunes) {
+					break
+				}
+				idx[i] = 0
+				i--
+			}
+			if i < 0 {
+				break
+			}
+		}
+	}
+	c.Parallel(len(texts), func(l *vk.Local, ti int) {
+		want := texts[ti]
+		data := []byte(string(want))
+		for split := 0; split < 1<<uint(len(data)-1); split++ {
+			var chunks [][]byte
+			from := 0
+			for k := 1; k <= len(data); k++ {
+				if k == len(data) || split&(1<<uint(k-1)) != 0 {
+					chunks = append(chunks, data[from:k])
+					from = k
+				}
+			}
+			insideSplit := c31PauseInsideRune(data, uint32(split)<<1)
+			where := fmt.Sprintf("text %q (characters %U) arriving as writes %q through the real bReader", data, want, chunks)
+			base, n, problem := c31RealRun(chunks, len(data), [2]int{})
+			cls := fmt.Sprintf("real/chars=%d/bytes=%d/writes=%d/split-inside-char=%v", len(want), len(data), len(chunks), insideSplit)
+			l.Case(cls + "/fault-free")
+			if problem != "" {
+				c.Violate("real-reader-"+c31ProblemKey(problem), where+": "+problem, where)
+				continue
+			}
+			ok := len(base) == len(want)
+			for i := 0; ok && i < len(want); i++ {
+				k, isKey := base[i].ev.(KeyEvent)
+				ok = base[i].err == nil && isKey && k.Rune == want[i] && k.Mod == 0
+			}
+			if !ok {
+				c.Violate("real-reader-plain-text", fmt.Sprintf("%s, no fault: got %s, want one unmodified key event per character", where, c31RealDescribe(base)), where)
+				continue
+			}
+			check := func(at [2]int, limit int) {
+				outs, _, problem := c31RealRun(chunks, len(data), at)
+				l.Case(fmt.Sprintf("%s/eintr=%d", cls, limit))
+				desc := fmt.Sprintf("%s, select(2) interrupted (EINTR) at wait call(s) %v of %d", where, at[:limit], n)
+				if problem != "" {
+					c.Violate("eintr-"+c31ProblemKey(problem), desc+": "+problem, desc)
+					return
+				}
+				same := len(outs) == len(base)
+				anyErr := false
+				for i, o := range outs {
+					if o.err != nil {
+						anyErr = true
+					}
+					if same && (o.err != base[i].err || o.ev != base[i].ev) {
+						same = false
+					}
+				}
+				if anyErr {
+					fatal := ""
+					for _, o := range outs {
+						if o.err != nil && !IsReadErrorRecoverable(o.err) {
+							fatal = " (a non-recoverable error: the application stops reading input)"
+						}
+					}
+					c.Violate("eintr-surfaced-as-error", fmt.Sprintf("%s: got %s%s, the uninterrupted run gives %s", desc, c31RealDescribe(outs), fatal, c31RealDescribe(base)), desc)
+				} else if !same {
+					c.Violate("eintr-changes-events", fmt.Sprintf("%s: got %s, the uninterrupted run gives %s", desc, c31RealDescribe(outs), c31RealDescribe(base)), desc)
+				}
+			}
+			for k1 := 1; k1 <= n; k1++ {
+				check([2]int{k1, 0}, 1)
+				if faults >= 2 {
+					for k2 := k1 + 1; k2 <= n+1; k2++ {
+						check([2]int{k1, k2}, 2)
+					}
+				}
+			}
+		}
+	})
+}
+
+func c31ProblemKey(problem string) string {
+	if len(problem) >= 5 && problem[:5] == "panic" {
+		return "panic"
+	}
+	return "too-many-calls"
 }
